@@ -161,6 +161,29 @@ def run(tier, seed):
                         ck.case((name, "array_form", mname, k), True)
                         if dmax > 1e-12 * max(float(np.max(np.abs(a_v))), scale_all * 1e-3):
                             ck.violation({"clause": "scalar_vs_array", "impl": name, "mode": mname, "kind": KINDS[k]}, "%s mode %s %s: array and scalar calls differ by %.3g" % (name, mname, KINDS[k], dmax), det0)
+            # the orbital arguments as arrays (obliquity and eccentricity of the shape of the angle arrays): the caller's arrays come back
+            # untouched, a second identical call gives the same numbers, and both equal the scalar evaluation
+            if si == 0 and has_obl:
+                I_arr, e_arr = np.full(th.shape, float(I)), np.full(th.shape, float(e))
+                try:
+                    f_ = getattr(P, name)
+                    o1 = f_(1.0e6, ph, th, t, n, o, e_arr, I_arr, M, a, static)
+                    changed = [nm for nm, arr, val in (("obliquity", I_arr, I), ("eccentricity", e_arr, e)) if not np.all(arr == float(val))]
+                    o2 = f_(1.0e6, ph, th, t, n, o, e_arr, I_arr, M, a, static)
+                    ck.case((name, "orbital_arrays"), True)
+                    if changed:
+                        ck.violation({"clause": "inputs_unmodified", "impl": name, "what": changed[0]}, "%s changed the caller's %s array (%.6g -> %.6g)" % (name, changed[0], float(I if changed[0] == "obliquity" else e), float((I_arr if changed[0] == "obliquity" else e_arr)[0])), det0)
+                    for mname, six in o1[2].items():
+                        for k in range(6):
+                            v1, v2 = np.asarray(six[k]) * np.ones_like(th), np.asarray(o2[2][mname][k]) * np.ones_like(th)
+                            lim = 1e-12 * max(float(np.max(np.abs(v1))), scale_all * 1e-3)
+                            if float(np.max(np.abs(v1 - v2))) > lim or (not changed and float(np.max(np.abs(v1 - tup[mname][k]))) > lim):
+                                ck.violation({"clause": "scalar_vs_array", "impl": name, "mode": mname, "kind": KINDS[k], "what": "orbital_arrays"},
+                                             "%s mode %s %s with array obliquity / eccentricity: first call, second call and scalar call differ (%.3g, %.3g)" % (
+                                                 name, mname, KINDS[k], float(np.max(np.abs(v1 - v2))), float(np.max(np.abs(v1 - tup[mname][k])))), det0)
+                                break
+                except Exception as ex:
+                    ck.violation({"clause": "scalar_vs_array", "impl": name, "what": "orbital_arrays_raise"}, "%s raised %s(%s) for array obliquity / eccentricity" % (name, type(ex).__name__, str(ex)[:120]), det0)
             # per-mode variant sums to its non-modal counterpart
             if twin:
                 out2 = call(P, twin, has_obl, th, ph, t, n, o, e, I, M, a, static)
